@@ -269,9 +269,10 @@ def run_spec(S, oracle_classes, wall=20, keep=False):
     R = Run(S)
     res = {"status": "ok", "prop": None, "clause": None, "msg": "", "step": 0}
     tap = DrawTap(S["draws"], R.log) if S.get("draws") is not None else None
-    # Wall guard that tells a hang from a slow run on a loaded machine: a timer ticks every wall/3 seconds; a HANG is a whole
-    # tick without a single B-event completing while the engine is running; a run that keeps progressing is only cut off
-    # (as inconclusive, like a step cap) after 12 ticks.
+    # Guard that tells a hang from a slow run: a timer ticks every wall/12 seconds of this process's own CPU time (not real
+    # time: on a loaded machine a starved worker must never look hung); a HANG is a whole tick without a single B-event
+    # completing while the engine is running; a run that keeps progressing is only cut off (as inconclusive, like a step
+    # cap) after 48 ticks.
     watch = {"last": -1, "ticks": 0, "phase": "build"}
 
     def _tick(signum, frame):
@@ -281,12 +282,12 @@ def run_spec(S, oracle_classes, wall=20, keep=False):
         watch["phase"] = phase_box[0]
         if stuck and watch["ticks"] >= 2:
             raise Hang()
-        if watch["ticks"] >= 12:
+        if watch["ticks"] >= 48:
             raise Hang()
 
     phase_box = ["build"]
-    old = signal.signal(signal.SIGALRM, _tick)
-    signal.setitimer(signal.ITIMER_REAL, wall / 3.0, wall / 3.0)
+    old = signal.signal(signal.SIGPROF, _tick)
+    signal.setitimer(signal.ITIMER_PROF, wall / 12.0, wall / 12.0)
     phase = "build"
     try:
         try:
@@ -366,7 +367,7 @@ def run_spec(S, oracle_classes, wall=20, keep=False):
             for o in R.oracles:
                 o.finish()
         finally:
-            signal.setitimer(signal.ITIMER_REAL, 0)
+            signal.setitimer(signal.ITIMER_PROF, 0)
             if tap is not None and hasattr(tap, "_saved"):
                 tap.uninstall()
     except Violation as v:
@@ -386,10 +387,10 @@ def run_spec(S, oracle_classes, wall=20, keep=False):
     except OutOfDomain as e:
         res.update(status="discard", msg=str(e))
     except Hang:
-        stuck_in_engine = phase in ("init", "run") and watch["ticks"] < 12
+        stuck_in_engine = phase in ("init", "run") and watch["ticks"] < 48
         if stuck_in_engine:
             res.update(status="hang", prop="C14", clause="hang@" + phase,
-                       msg="no event completed within %.0f s (phase %s, step %d)" % (wall / 3.0, phase, R.step))
+                       msg="no event completed within %.0f s of CPU time (phase %s, step %d)" % (wall / 12.0, phase, R.step))
         else:
             res.update(status="cap", msg="slow run cut off by the wall guard in phase %s after %d ticks" % (phase, watch["ticks"]))
             R.counts["wall_guard_cutoffs"] += 1
@@ -402,7 +403,7 @@ def run_spec(S, oracle_classes, wall=20, keep=False):
             res.update(status="harness", clause=site,
                        msg="".join(traceback.format_exception(type(e), e, e.__traceback__))[-3000:])
     finally:
-        signal.signal(signal.SIGALRM, old)
+        signal.signal(signal.SIGPROF, old)
     f5 = S.get("f5")
     if f5 is not None and phase != "build" and hasattr(R, "B"):
         # F5: one invalid sample was planted; if it was served, the run must have ended with an error at that draw
